@@ -36,6 +36,7 @@ def rule_generator(rep: Report, rid="C11.gen") -> None:
     I.intrinsics.clear()
     q = f"{GQ}.get_next_id"
     fi = I.facts.func(q)
+    q = fi.qualname            # (where the class lives today)
     rep.used_file(fi.file)
     rep.used_function(q)
     tree, rv, st = I.run(q)
@@ -62,7 +63,7 @@ def rule_generator(rep: Report, rid="C11.gen") -> None:
                 if isinstance(n, ast.Call) and ((isinstance(n.func, ast.Attribute) and n.func.attr == name) or (isinstance(n.func, ast.Name) and n.func.id == name)):
                     out.add(g.qualname)
         return out
-    allowed = {q, f"{GQ}.__init__"}
+    allowed = {q, I.facts.func(f"{GQ}.__init__").qualname}
     changed = True
     while changed:
         changed = False
